@@ -227,7 +227,8 @@ def explore(ctx):
                         spec = {'n_spikes': 8, 'n_templates': 4, 'n_channels': 5, 'geometry': 'grid',
                                 'spike_templates': st, 'spike_clusters': curate(st, how),
                                 'whitening': wh, 'features': feat, 'tfeatures': 'absent', 'raw': False,
-                                'sample_rate': sr, 'nsw': 5, 'fill': ctx.seed + (i % 3)}
+                                'sample_rate': sr, 'nsw': 5, 'fill': ctx.seed + (i % 3),
+                                'nonpositive_spikes': [3, 7] if i % 2 else [0]}
                         cases.append({'spec': spec, 'factors': [1, 2.5], 'unused': unused, 'how': how})
     ctx.run_cases(run_case, cases, sweep='summaries')
     ctx.bounds = {'unused_template_position': list(ASSIGN), 'curation': ['same', 'merge', 'split',
